@@ -113,7 +113,10 @@ def lifetimes_crash_family(rng: random.Random, prop: str, world: dict, ctl: Ctl,
             lt["step"] = "explicit"  # resolved against the model at execution time
     lt["writer"] = P.draw_writer(rng)
     lt["ops"] = [{"op": "solve_to", "it": Tmax}, {"op": "wait"}]
-    if prop == "C12" and rng.random() < 0.5:
+    per_cleared = world["solver"]["cls"] == "PER" and world["solver"]["kw"].get("clear_value_history_on_convergence", True) and ctl.converged
+    if prop == "C12" and rng.random() < 0.5 and not per_cleared:
+        # (a converged periodic solver that cleared its history - a documented option - cannot be
+        #  continued, observation O-3 in DESIGN.md)
         # one more call after convergence / limit: solve() composes with itself
         lt["ops"] += [{"op": "solve", "k": rng.randint(1, 3)}, {"op": "wait"}]
     lts.append(lt)
